@@ -8,7 +8,7 @@ use dashmap::DashMap;
 
 use narwhal_protocol::ErrorReason::{
   BadRequest, ChannelIsFull, ChannelNotFound, Forbidden, NotAllowed, NotImplemented, PolicyViolation, ResourceConflict,
-  UserInChannel, UserNotInChannel, UserNotRegistered,
+  ServerOverloaded, UserInChannel, UserNotInChannel, UserNotRegistered,
 };
 use narwhal_protocol::{
   AclAction, AclType, BroadcastAckParameters, ChannelAclParameters, ChannelConfigurationParameters,
@@ -44,6 +44,9 @@ struct ChannelManagerInner {
 
   /// The event notifier.
   notifier: Notifier,
+
+  /// The maximum number of channels.
+  max_channels: u32,
 
   /// The maximum allowed clients per channel.
   max_clients_per_channel: u32,
@@ -91,6 +94,7 @@ impl ChannelManager {
       notifier,
       channels: Arc::new(channels_map),
       in_channels: Arc::new(in_channels),
+      max_channels,
       max_clients_per_channel,
       max_channels_per_client,
       max_payload_size,
@@ -291,6 +295,7 @@ impl ChannelManager {
     let notifier = mng_guard.notifier.clone();
     let in_channels = mng_guard.in_channels.clone();
 
+    let max_channels = mng_guard.max_channels;
     let max_channels_per_client = mng_guard.max_channels_per_client;
     let max_clients_per_channel = mng_guard.max_clients_per_channel;
     let max_payload_size = mng_guard.max_payload_size;
@@ -302,6 +307,13 @@ impl ChannelManager {
       return Err(narwhal_protocol::Error::new(NotImplemented).with_id(correlation_id).into());
     }
     let handler = channel_id.handler.clone();
+
+    // Creating one more channel must not exceed the configured maximum.
+    if !channels.contains_key(&handler) && channels.len() >= max_channels as usize {
+      return Err(
+        narwhal_protocol::Error::new(ServerOverloaded).with_id(correlation_id).with_detail("channel limit reached").into(),
+      );
+    }
 
     // Check if the channel exists, and create it if it doesn't
     let mut as_owner = false;
